@@ -79,7 +79,7 @@ func newShared() *shared {
 	mk := func() *ast.DataMessage {
 		return ast.NewHSMSDataMessage("c", 3, 5, 1, "H<-E",
 			ast.NewListNode(ast.NewASCIINode("text"), ast.NewFloatNode(8, 1.5, -2.25), ast.NewBinaryNode(1, 2, 255), ast.NewUintNode(2, long...),
-				ast.NewASCIINode(strings.Repeat("0123456789abcdef", 320)), deepAround(wide, 14)), 77, []byte{9, 8, 7, 6})
+				ast.NewASCIINode(strings.Repeat("0123456789abcdef", 320)), deepAround(wide, 36)), 77, []byte{9, 8, 7, 6})
 	}
 	s.complete = mk()
 	if h, err := hex.DecodeString(os.Getenv("VERIF_CONC_BYTES")); err == nil && len(h) > 0 {
